@@ -555,6 +555,16 @@ impl P2p {
         Ok(headers)
     }
 
+    /// Verification hook: runs a bare [`HeaderSession`] for `range` on this instance's
+    /// command channel and returns its result unchanged.
+    #[cfg(eigerco_lumina_verif)]
+    pub(crate) async fn verif_run_header_session(
+        &self,
+        range: BlockRange,
+    ) -> Result<Vec<ExtendedHeader>> {
+        HeaderSession::new(range, self.cmd_tx.clone()).run().await
+    }
+
     /// Request a [`Cid`] on bitswap protocol.
     pub(crate) async fn get_shwap_cid(
         &self,
